@@ -119,6 +119,31 @@ class Domain:
             s._k = None
 
 
+def _nonnull_arm(t):
+    """'(C ? A : NULL)' or '(C ? NULL : A)' -> A (top-level operators only), else None"""
+    if not (t.startswith("(") and t.endswith(")")):
+        return None
+    inner = t[1:-1]
+    depth, q, c = 0, None, None
+    for i, ch_ in enumerate(inner):
+        depth += ch_ == "("
+        depth -= ch_ == ")"
+        if depth < 0:
+            return None
+        if depth == 0 and inner.startswith(" ? ", i) and q is None:
+            q = i
+        if depth == 0 and inner.startswith(" : ", i) and q is not None and c is None:
+            c = i
+    if q is None or c is None:
+        return None
+    a, b = inner[q + 3:c], inner[c + 3:]
+    if b in ("NULL", "0"):
+        return a
+    if a in ("NULL", "0"):
+        return b
+    return None
+
+
 def _split_sum(t):
     """('A', 'B') for a canonical string '(A + B)' whose left part is not a number (pointer + index), else None"""
     if not (t.startswith("(") and t.endswith(")")):
@@ -190,6 +215,10 @@ class Flow:
                 return base + ("->" if n.get("isArrow") else ".") + "<anon>"
             if base.endswith("<anon>"):
                 return base[:-6] + n["name"]
+            if n.get("isArrow") and base.startswith("(") and " ? " in base:
+                arm = _nonnull_arm(base)
+                if arm is not None:
+                    base = arm              # (c ? p : NULL)->f is only defined when it is p->f
             if base.startswith("&") and n.get("isArrow") and not base.startswith("&("):
                 return base[1:] + "." + n["name"]
             if n.get("isArrow"):
@@ -428,10 +457,34 @@ class Flow:
         seen = set()
         exits, rets = [], []
         if not test_first:
-            o = self.stmt(body, self._havoc(S, hv, tag, decl, entry=True))
-            exits += o.b
-            rets += o.r
-            heads = o.n + o.c
+            # do { body } while (cond): the loop head is the start of the body - reached on entry and, after the test held,
+            # over the back edge; both arrivals are havocked at that one point (so inferred head invariants speak about it)
+            work = self._havoc(S, hv, tag, decl, entry=True)
+            iters = 0
+            while work:
+                iters += 1
+                if iters > MAX_LOOP_ITERS:
+                    raise AnalysisBroken("%s: loop does not reach a fixed point" % self.cur_func().key)
+                new = []
+                for s in work:
+                    if s.key() not in seen:
+                        seen.add(s.key())
+                        new.append(s)
+                if not new:
+                    break
+                o = self.stmt(body, new)
+                exits += o.b
+                rets += o.r
+                nxt = o.n + o.c
+                if cond is not None and nxt:
+                    T, F = self.cond(cond, nxt)
+                else:
+                    T, F = nxt, []
+                exits += F
+                work = self._havoc(T, hv, tag, decl)
+            out = Out(self._havoc(exits, None, tag, decl) if decl else dedupe(exits))
+            out.r = rets
+            return out
         else:
             heads = S
         work = self._havoc(heads, hv, tag, decl, entry=test_first)
